@@ -5,8 +5,10 @@ P=$1; D=$2; PROP=$3; TIER=${4:-quick}
 cd /repo || exit 2
 git diff --quiet || { echo "/repo not clean"; exit 2; }
 echo "--- demo on unmodified /repo"; PYTHONPATH=/repo /venv/bin/python $D | tail -2; echo "rc=$?"
+rm -rf /tmp/ev_backup && cp -r /verif/evidence /tmp/ev_backup
 git apply --whitespace=nowarn $P || { echo "patch does not apply"; exit 2; }
 echo "--- demo on changed /repo"; PYTHONPATH=/repo /venv/bin/python $D | tail -3
 echo "--- check $PROP $TIER on changed /repo"
 (cd /verif && ./check $PROP $TIER 2>&1 | grep -v "^WARNING conda" | tail -12)
+rm -rf /verif/evidence && mv /tmp/ev_backup /verif/evidence   # evidence must come from the unchanged tree
 git -C /repo checkout -- . ; git -C /repo status --short | head -3
